@@ -156,4 +156,17 @@ def decRules : Nat → List String → Option (List Rule × List String)
     let (xs, r2) ← decRules k r1
     pure (x :: xs, r2)
 
+
+partial def encGoal : Goal → String
+  | .nil => "G0"
+  | .call t => "Gc " ++ encTerm t
+  | .bip name none => "Gb:" ++ hex name ++ ":0:0"
+  | .bip name (some args) => "Gb:" ++ hex name ++ ":1:" ++ toString args.length ++ String.join (args.toList.map fun t => " " ++ encTerm t)
+  | .and gs => "Ga:" ++ toString gs.length ++ String.join (gs.toList.map fun g => " " ++ encGoal g)
+  | .or gs => "Go:" ++ toString gs.length ++ String.join (gs.toList.map fun g => " " ++ encGoal g)
+  | .time gs => "Gt:" ++ toString gs.length ++ String.join (gs.toList.map fun g => " " ++ encGoal g)
+  | .not gs => "Gn:" ++ toString gs.length ++ String.join (gs.toList.map fun g => " " ++ encGoal g)
+
+def encRule (r : Rule) : String := "R " ++ encTerm r.head ++ " " ++ encGoal r.body
+
 end Suiron.Codec
